@@ -129,3 +129,23 @@ c14_assoc_obs(A, Probe, [R1,R2,R3,R4,R5,R6,R7,R8,R9,R10]) :-
 
 c14_mem(X, [X|_]).
 c14_mem(X, [_|Xs]) :- c14_mem(X, Xs).
+
+% ---------------------------------------------------------------- long lists
+% c14_long(+Pairs, -Rs): stability of keysort/2 and order of sort/2 beyond the
+% small-slice paths of the sorting routines. Results in a fixed order.
+c14_long(Ps, [R1,R2,R3,R4,R5]) :-
+    vx_first(S1, keysort(Ps, S1), R1),
+    vx_first(S2, sort(Ps, S2), R2),
+    c14_keys(Ps, Ks),
+    vx_first(S3, sort(Ks, S3), R3),
+    vx_first(S4, list_to_set(Ks, S4), R4),
+    c14_rev(Ps, [], Qs),
+    vx_first(S5, keysort(Qs, S5), R5).
+
+% the same battery on a list rebuilt at run time (plain list cells made by findall/3)
+c14_long_copy(Ps0, Rs) :-
+    findall(P, c14_mem(P, Ps0), Ps),
+    c14_long(Ps, Rs).
+
+c14_keys([], []).
+c14_keys([K-_|Ps], [K|Ks]) :- c14_keys(Ps, Ks).
